@@ -60,13 +60,11 @@ def _runs(cases, k, rnd):
         return out
     out = spread(a, na) + spread(b, nb)
     out += rest[:max(0, k - len(out))]
-    runs, intruded = [], False
+    runs = []
     for c in out:
         g = 5 - len(c["excluded"])
         unsel = [f for f in range(1, g + 1) if f not in c["signers"]]
-        intr = []
-        if unsel and not intruded:
-            intr, intruded = unsel, True       # every unselected signer runs too
+        intr = unsel                           # every unselected signer runs too (and must be ignored)
         runs.append({"n": 5, "h": 3, "quorum": c["quorum"], "excluded": c["excluded"], "signers": c["signers"],
                      "intruders": intr})
     return runs
@@ -112,7 +110,7 @@ def run(ctx):
         inputs["keygenruns.ndjson"] = [{"n": 5, "h": 3, "quorum": 4, "excluded": excl, "operating": ops, "signerSets": sets}]
         tests = "^TestVerif_C08_(Pipeline|Sign|KeygenSign)$"
     go = ctx.gotest(PKG, tests, ["c08_test.go"], inputs=inputs, extra_overlay=OVERLAY, label="c08",
-                    env={"VERIF_SIGN_BUDGET_S": ctx.pick(600, 900), "VERIF_KEYGEN_BUDGET_S": 1500},
+                    env={"VERIF_SIGN_BUDGET_S": ctx.pick(420, 900), "VERIF_KEYGEN_BUDGET_S": 1500},
                     timeout=ctx.pick(1500, 5400))
     ctx.absorb(go)
     want = {"pipeline", "sign"} | ({"keygensign"} if ctx.thorough else set())
